@@ -439,7 +439,9 @@ def run_batch(args):
                 if irc != p[1]:
                     res['spec'].append(dict(desc=desc, call=ci, code=code, impl=irc, spec=p[1], model=p[0], rank=rk, sig=sig_before))
                 if isobs:
-                    cur.append('%s %s %s' % (op, rcs, rest))
+                    # wait lines also dump the driver's own request-slot buffers (first dump hex, later `same`;
+                    # a rejected post leaves a live slot in the DRIVER): not library state, keep the rc only
+                    cur.append('%s %s %s' % (op, rcs, '' if op == 'wait' else rest))
                     if (hi, ci) in extra:
                         a, b = extra[(hi, ci)]
                         ea = lg.get(a); eb = lg.get(b) if b else None
@@ -451,7 +453,7 @@ def run_batch(args):
                             res['modefail'].append(dict(desc=desc, call=ci, obs=m4, rank=rk))
                         if cand is not None and cand[4] is not None and cand[2] != 0 and cand[1] not in (CLOSE, ABORT) and cand[4] != sigstr:
                             res['effect'].append(dict(desc=desc, call=cand[0], code=cand[1], impl=cand[2], rank=rk, sig=cand[3],
-                                                      before=cand[4][-600:], after=sigstr[-600:]))
+                                                      before=cand[4], after=sigstr))
                         last_group = sigstr; cur = []; cand = None
                 sig_before = p[2]
     if not os.environ.get('C14_KEEP'):
@@ -460,7 +462,7 @@ def run_batch(args):
     for k in ('mism', 'spec', 'effect', 'modefail', 'aux_mism'):
         res['n_' + k] = len(res[k])
         if k != 'spec':
-            res[k] = res[k][:40]
+            res[k] = res[k][:(3 if k == 'effect' else 40)]
     # keep the specification deviations compact: one representative (shortest) per key and state, plus counts
     comp = {}
     for f in res['spec']:
